@@ -372,6 +372,11 @@ class HandshakeOpenFlowHandlers (OpenFlowHandlers):
     con._deferred_port_status.append(msg)
 
   def _finish_connecting (self, con):
+    if con.disconnected:
+      # We gave up on this connection (e.g., a send failed) while the rest
+      # of its handshake was still sitting in the receive buffer.  Don't
+      # announce or register a connection that is already gone.
+      return
     con.ofnexus._connect(con)
     con.info("connected")
     con.connect_time = time.time()
